@@ -185,6 +185,16 @@ def check_config(ctx, F, tag):
     detail = "no OpenOptions::write call"
     if len(wcalls) == 1:
         t = new.term_of_operand(wcalls[0][1]["args"][1])
+        t0 = strip_casts(t)
+        if t0[0] == "call" and t0[1].endswith("PartialEq>::eq") and len(t0[2]) == 2:
+            # write = (mode == MappingMode::Mutable)
+            x, y = strip_ptr(t0[2][0]), strip_ptr(t0[2][1])
+            while x[0] in ("ref", "deref"):
+                x = x[1]
+            while y[0] in ("ref", "deref"):
+                y = y[1]
+            okw = x[0] == "param" and x[1] == 1 and y[0] == "promoted" and any(d.endswith("MappingMode::Mutable") for d in y[3])
+            detail = "write(mode == MappingMode::Mutable): %s" % okw
         if t[0] == "var":
             arms = switch_arm_defs(new, t[1])
             if arms:
